@@ -84,8 +84,8 @@ if [ "$TIER" = "thorough" ]; then
   # ---- ASan: coverage-guided + corpus
   # (an op list uses at most 800 / 604 input bytes: longer inputs only slow the engine down)
   export VERIF_FUZZ_JOBS=${VERIF_FUZZ_JOBS:-16}
-  FUZZ_MAX_LEN=800 fuzz_campaign "$ID" ringbuf_ops 1000000 || exit $?
-  FUZZ_MAX_LEN=604 fuzz_campaign "$ID" decodebuf_ops 2000000 || exit $?
+  FUZZ_MAX_LEN=800 fuzz_campaign "$ID" ringbuf_ops 500000 || exit $?
+  FUZZ_MAX_LEN=604 fuzz_campaign "$ID" decodebuf_ops 1000000 || exit $?
   FUZZ_JSON=$(cat /verif/target/fuzz-stats-$ID.json 2>/dev/null || echo "{}")
 fi
 merge_evidence "$ID" "{\"miri\": {\"lists\": $MIRI_LISTS, \"status\": \"$MIRI_STATUS\"}, \"fuzz\": $FUZZ_JSON}" 0
